@@ -11,6 +11,7 @@ import (
 	"sync"
 	"sync/atomic"
 	"testing"
+	"time"
 
 	"github.com/fabiolb/fabio/proxy"
 	"github.com/fabiolb/fabio/route"
@@ -48,7 +49,14 @@ func run(G int, fn func(g int)) {
 		}(g)
 	}
 	close(start)
-	wg.Wait()
+	done := make(chan struct{})
+	go func() { wg.Wait(); close(done) }()
+	select {
+	case <-done:
+	case <-time.After(90 * time.Second):
+		// nothing in these workloads waits for anything but the code under test
+		panic("concurrent lookups / requests did not return within 90s: something they call blocks for ever")
+	}
 }
 
 // ---------------------------------------------------------------------------
